@@ -527,6 +527,15 @@ def build(tier, seed):
                       (f"{SP}::_Simu.Assembly", f"{SP}::_Simu.__Assemble_csr", f"{SP}::_Simu.__Get_csr_map"),
                       bound="hand-built 2-3 element meshes, 3 successive assemblies, integer-valued element data",
                       clause="every global matrix/vector equals the dense loop scatter-add exactly", timeout=120))
+    # direct sparse assembly of a weak form (_forms.py is anchored in C03): same contract as C13.assemble.*
+    from . import C13
+    for kind in ("bilinear", "linear"):
+        cls = "BiLinearForm" if kind == "bilinear" else "LinearForm"
+        obs.append(Ob(f"C03.forms.assemble.index.{kind}", C13.ob_assemble_index, (kind,), "P", (f"EasyFEA/FEM/_forms.py::{cls}.Assemble",),
+                      clause="the element values of Integrate_e are paired with rows_e / columns_e (assembly_e and column 0) in storage order", timeout=120))
+        obs.append(Ob(f"C03.forms.scatter.{kind}", C13.ob_assemble_scatter, (kind,), "X", (f"EasyFEA/FEM/_forms.py::{cls}.Assemble",),
+                      bound="TRI3 scalar convection form and QUAD4 vector shear form on two-element patches",
+                      clause="Assemble(field) == sum_e scatter(Integrate_e) with K_e[e,i,j] at (a[e,i], a[e,j])", timeout=120))
     obs.append(Ob("canary.assembly_e", ob_assembly, (4, 2, True), "P", expect=REFUTED, timeout=60))
     functions = {q: extract.get(GP, f"_GroupElem.{q}").describe() for q in ("_Get_assembly_e", "Get_rows_e", "Get_columns_e")}
     for q in ("Assembly", "__Assemble_csr", "__Get_csr_map"):
